@@ -316,8 +316,8 @@ def cases(tier):
                     parts = [p for p in parts if max(p) <= 1] + [(0, 1, 2, 2), (2, 0, 1, 0), (1, 1, 2, 0)]
                 if cov and not th:
                     # symbolic Cholesky of a dense 2x2 covariance is expensive: a representative set in the quick tier
-                    # (two samples in one chain / in two chains; longer histories, > 25 min each, are thorough-tier only)
-                    parts = {2: [(0, 0), (0, 1)], 3: [], 4: []}[n]
+                    # (two samples in one chain; two chains (> 800 s) and longer histories (> 25 min each) are thorough-tier only)
+                    parts = {2: [(0, 0)], 3: [], 4: []}[n]
                 probs = [("variance", {"n": n, "dim": dim, "assign": p, "cov": cov}) for p in parts]
                 per = 1 if cov else 8
                 for g in range(0, len(probs), per):
